@@ -989,3 +989,66 @@ def bulk_sessions(tier, seed):
             sessions.append({"id": "bulk/%d/%s" % (g, mode), "bulk": {"nodes": nodes, "edges": edges}, "bulk_mode": mode,
                              "setup": [], "dump": True, "cases": cases})
     return sessions
+
+
+# ----------------------------------------------------------------------------- C34: C API vs Rust API
+def K(k, q=None):
+    return {"k": k, "q": q} if q is not None else {"k": k, "q": []}
+
+
+ACCEPT_CASES = [   # (class, statement, clause tree)
+    ("read", "MATCH (n) RETURN count(n) AS c", [K("match"), K("return")]),
+    ("read-unwind", "UNWIND [1, 2] AS x RETURN x", [K("unwind"), K("return")]),
+    ("read-optional", "MATCH (h:Hub) OPTIONAL MATCH (h)-[:L]->(s) RETURN count(s) AS c", [K("match"), K("match"), K("return")]),
+    ("read-union", "RETURN 1 AS x UNION RETURN 2 AS x", [K("return"), K("union", [K("return")])]),
+    ("create", "CREATE (:Acc {k: 1})", [K("create")]),
+    ("match-set", "MATCH (h:Hub) SET h.acc = 1", [K("match"), K("set")]),
+    ("match-remove", "MATCH (h:Hub) REMOVE h.acc", [K("match"), K("remove")]),
+    ("merge", "MERGE (:Acc {k: 2})", [K("merge")]),
+    ("match-delete", "MATCH (a:Acc) DETACH DELETE a", [K("match"), K("delete")]),
+    ("foreach", "MATCH (h:Hub) FOREACH (x IN [1, 2] | SET h.fe = x)", [K("match"), K("foreach")]),
+    ("foreach-create", "FOREACH (x IN [1] | CREATE (:Acc {k: x}))", [K("foreach")]),
+    ("call-subquery-write", "MATCH (h:Hub) CALL { WITH h SET h.sq = 1 } RETURN count(*) AS c", [K("match"), K("call", [K("with"), K("set")]), K("return")]),
+    ("call-subquery-create", "CALL { CREATE (:Acc {k: 3}) } RETURN 1 AS x", [K("call", [K("create")]), K("return")]),
+    ("call-subquery-read", "MATCH (h:Hub) CALL { WITH h MATCH (h)-[:L]->(s) RETURN count(s) AS c } RETURN c", [K("match"), K("call", [K("with"), K("match"), K("return")]), K("return")]),
+    ("union-write-second", "MATCH (h:Hub) RETURN 1 AS x UNION CREATE (:Acc {k: 4}) RETURN 1 AS x", [K("match"), K("return"), K("union", [K("create"), K("return")])]),
+    ("union-write-first", "CREATE (:Acc {k: 5}) RETURN 1 AS x UNION RETURN 2 AS x", [K("create"), K("return"), K("union", [K("return")])]),
+    ("nested-subquery-write", "CALL { CALL { CREATE (:Acc {k: 6}) } RETURN 1 AS y } RETURN y", [K("call", [K("call", [K("create")]), K("return")]), K("return")]),
+    ("subquery-foreach", "MATCH (h:Hub) CALL { WITH h FOREACH (x IN [1] | SET h.sf = x) } RETURN 1 AS x", [K("match"), K("call", [K("with"), K("foreach")]), K("return")]),
+    ("subquery-union-write", "CALL { RETURN 1 AS y UNION CREATE (:Acc {k: 7}) RETURN 2 AS y } RETURN y", [K("call", [K("return"), K("union", [K("create"), K("return")])]), K("return")]),
+    ("create-return", "CREATE (a:Acc {k: 8}) RETURN a.k AS k", [K("create"), K("return")]),
+    ("match-set-return", "MATCH (h:Hub) SET h.r = 1 RETURN h.r AS r", [K("match"), K("set"), K("return")]),
+]
+PARITY_VALUES = ["RETURN 1 AS x", "RETURN 1.0 AS x", "RETURN -0.0 AS x", "RETURN 9223372036854775807 AS x", "RETURN -9223372036854775808 AS x",
+                 "RETURN 9007199254740993 AS x", "RETURN 0.1 AS x", "RETURN 1e300 AS x", "RETURN 0.0 / 0.0 AS x", "RETURN 1.0 / 0.0 AS x",
+                 "RETURN -1.0 / 0.0 AS x", "RETURN 'a\\'b' AS x", "RETURN '' AS x", "RETURN null AS x", "RETURN true AS x",
+                 "RETURN [1, 1.0, 'a', null, [2]] AS x", "RETURN {a: 1, b: [1.5, null], c: {d: 'x'}} AS x", "RETURN [] AS x", "RETURN {} AS x",
+                 "MATCH (h:Hub) RETURN h AS x", "MATCH (h:Hub)-[r:L]->(s) RETURN r AS x, s AS y", "MATCH (h:Hub) RETURN h.p AS x, labels(h) AS l, properties(h) AS m",
+                 "MATCH (n) RETURN id(n) AS i, n.p AS p ORDER BY i", "MATCH p = (h:Hub)-[:L]->(s) RETURN length(p) AS n",
+                 "UNWIND [1, 2, 3] AS x RETURN x, x * 1.5 AS y, toString(x) AS s", "RETURN toBoolean(1) AS x", "RETURN 1 +", "MATCH (n) RETURN n.p + 'a' AS x",
+                 "RETURN $a AS a, $b AS b, $c AS c"]
+
+
+def parity_sessions(tier, seed):
+    rng = random.Random(seed)
+    sessions = []
+    cases = [{"cid": i + 1, "kind": "accept", "api": "accept", "query": q, "meta": {"cls": cls, "tree": tree}}
+             for i, (cls, q, tree) in enumerate(ACCEPT_CASES)]
+    sessions.append({"id": "capi/accept", "api": "c", "setup": CAPI_SETUP, "cases": cases})
+    cases = []
+    for i, q in enumerate(PARITY_VALUES):
+        c = {"cid": i + 1, "kind": "parity", "api": "parity", "query": q, "meta": {"src": "values"}}
+        if "$a" in q:
+            c["cparams"] = {"a": 1, "b": [1.5, "x", None], "c": {"k": [1, {"z": True}]}}
+        cases.append(c)
+    sessions.append({"id": "capi/parity-values", "api": "c", "twin": True, "setup": CAPI_SETUP, "cases": cases})
+    n_graphs = 4 if tier == "quick" else 40
+    for g in range(n_graphs):
+        setup = gen_graph(rng, ["plain", "parallel", "loops", "plain"][g % 4])
+        setup = [x for x in setup if not x.startswith("#")]
+        cases = []
+        for c in range(25):
+            ast, text = Gen(rng).query()
+            cases.append({"cid": c + 1, "kind": "parity", "api": "parity", "query": text, "meta": {"src": "generated"}})
+        sessions.append({"id": "capi/parity/%d" % g, "api": "c", "twin": True, "setup": setup, "cases": cases})
+    return sessions
